@@ -11,7 +11,7 @@ import json, os, re, subprocess, threading
 import lib, gen, mcb_oracle as O, exact_common as X
 
 PID = "C03"
-THEOREMS = ["Properties_C03.v"]
+THEOREMS = ["Properties_C03.v", "Properties_C02_trees.v"]
 SHIM_LIBS = ["-lboost_timer"]
 REAL_LIBS = ["-ltbb", "-lboost_timer"]
 KEYS = ["ROOTS", "EORD", "RET", "N", "CYC", "SCHED", "SEQRET", "SEQN", "SEQW", "TRACE"]
@@ -361,6 +361,20 @@ def shim_experiment(c, exe, lines, tier, refok, report, opts, label, count=True)
         ans = parse_answer(io[i])
         if refok and ans and not why and n <= (14 if tier == "quick" else 18) and len(es) <= 40 and (d["alg"] in EXACT) and (i % (3 if tier == "quick" else 5) == 0):
             refq.append(i)
+    # the tree-based *_tbb entry points: whatever the schedule, each phase must return a minimum-weight odd candidate, i.e. the run must be
+    # accepted by the same acceptance model as the sequential variants (TreesModel; C02_fvs_trees / C02_iso_trees cover every accepted run)
+    try:
+        import trees_common
+        tl, tio, torig = [], [], []
+        for i, (l, d) in enumerate(zip(lines, ds)):
+            if d["alg"] in ("fvs_tbb", "iso_tbb") and " RET " in " " + io[i]:
+                tl.append("A %s %s %d %s" % (d["alg"][:3], d["ty"], d["scale"], " ".join(l.split()[d["gpos"]:]))); tio.append(io[i]); torig.append(l)
+        if tl:
+            st = trees_common.run_trees(c, tier, "weight", lines=tl, io=tio, orig=torig, label="TBB tree variant under schedule, " + label)
+            c.extra["trees_tbb_replayed"] = c.extra.get("trees_tbb_replayed", 0) + st.get("replayed", 0)
+            c.extra["trees_tbb_accepted"] = c.extra.get("trees_tbb_accepted", 0) + st.get("accepted", 0)
+    except ImportError:
+        pass
     c.extra["signed_tbb_exact_agreements"] = c.extra.get("signed_tbb_exact_agreements", 0) + agree
     c.extra["signed_tbb_exact_runs"] = c.extra.get("signed_tbb_exact_runs", 0) + len(sidx)
     if refok and refq:
@@ -523,6 +537,10 @@ def check(tier, seed):
 # replay
 # ------------------------------------------------------------------------------------------------------------------
 def replay(path):
+    r0 = json.load(open(path))
+    if r0.get("component") == "trees" and "orig_case" in r0:
+        r0 = dict(r0); r0["case"] = r0["orig_case"]; r0["component"] = "c03"
+        path2 = path + ".orig.json"; json.dump(r0, open(path2, "w")); path = path2
     r = json.load(open(path))
     if "case" not in r:
         print("no input case recorded (%s)" % r.get("theorem_or_correspondence", r.get("what")))
